@@ -449,6 +449,16 @@ func (c *Core) remountCredential(ctx context.Context, src, dst namespace.MountPa
 		c.authLock.Unlock()
 		return err
 	}
+
+	if src.Namespace.ID != dst.Namespace.ID {
+		// The running backend was handed the storage view of its old
+		// namespace at setup and may have kept it; re-create the backend on
+		// the view of the new location.
+		if err := c.reloadBackendCommon(ctx, mountEntry, true); err != nil {
+			c.authLock.Unlock()
+			return err
+		}
+	}
 	c.authLock.Unlock()
 
 	// Un-taint the new path in the router
